@@ -673,10 +673,9 @@ class OrderedRingBuffer(Generic[FloatArray]):
             The count of samples between the oldest and newest (inclusive) valid samples
                 or 0 if there are is no time range covered.
         """
-        return int(
-            self._covered_time_range().total_seconds()
-            // self._sampling_period.total_seconds()
-        )
+        # Integer division of timedeltas is exact, float division is not
+        # (e.g. 0.011 // 0.001 == 10.0).
+        return self._covered_time_range() // self._sampling_period
 
     def count_valid(self) -> int:
         """Count the number of valid items that this buffer currently holds.
